@@ -6,7 +6,7 @@
    is needed), outputs have arbitrary address lengths, bundles, datum and script sizes; fee figures and
    the bundles packed into change outputs are universally quantified oracle arguments. *)
 From CSL Require Import Base.Prelude Base.U64 Cbor.Head Cbor.HeadProofs
-  MinAda.OutputSize MinAda.MinAda MinAda.Change MinAda.MinAdaProofs MinAda.ChangeProofs.
+  Codec.Schema Ledger.Schemas MinAda.OutputSize MinAda.MinAda MinAda.Change MinAda.MinAdaProofs MinAda.ChangeProofs MinAda.SchemaTie.
 Local Open Scope N_scope.
 
 (* ---- the calculator, over (base, coin): size = base + head_size coin is all it sees ---- *)
@@ -73,6 +73,16 @@ Proof.
   split; [apply out_value_size_decomp | apply calculate_ada_abs_eq].
 Qed.
 Print Assumptions C07_out_size_decomposition.
+
+(* the size model IS the length of the schema-directed encoding of check C01 (Codec/Schema.v enc on
+   Ledger/Schemas.v TransactionOutput / TransactionOutputLegacyDH), for every unrolling depth d of the recursive
+   schemas, every address, bundle (28-byte policy ids), datum (32-byte hash / any PlutusData value) and script
+   reference (any NativeScript value / Plutus bytes in one of the three languages) *)
+Theorem C07_out_size_is_schema_encoding : forall (d : nat) (o : coutput),
+  ids28 (co_ma o) -> hash_ok (co_datum o) -> lang_ok (co_sref o) ->
+  N.of_nat (length (enc_output d o)) = out_size (shape d o).
+Proof. exact out_size_is_schema_length. Qed.
+Print Assumptions C07_out_size_is_schema_encoding.
 
 Theorem C07_min_ada_for_output_sound : forall (cpb : N) (o : output) (c : N),
   min_ada_for_output cpb o = Ok c ->
@@ -187,6 +197,11 @@ Proof. split; [exact topup_same_width_invariant | exact topup_min_ada_safe_short
 Print Assumptions C07_topup_conditional.
 
 (* ---- non-vacuity of the premises ---- *)
+Example ex_schema_tie :           (* a post-Alonzo output: 3-byte address, one token, inline datum (uint 5), Plutus V2 script reference *)
+  let o := mkCOut [97; 1; 2] 1500000 [(repeat 7 28, [([1; 2; 3], 9)])] (CDInline (VAlt 1 (VNat 5))) (Some (CSPlutus 1 [1; 2; 3; 4])) in
+  ids28 (co_ma o) /\ hash_ok (co_datum o) /\ lang_ok (co_sref o) /\
+  N.of_nat (length (enc_output 0 o)) = 68 /\ out_size (shape 0 o) = 68.
+Proof. cbn zeta. split; [repeat constructor|]. split; [exact I|]. split; [cbn; lia|]. vm_compute. split; reflexivity. Qed.
 Example ex_min_ada_mainnet :      (* 57-byte address, ADA only, mainnet price: 4310 * (160 + 65) *)
   min_ada_for_output 4310 (mkOut 57 0 [] DNone None) = Ok 969750.
 Proof. vm_compute. reflexivity. Qed.
